@@ -12,6 +12,7 @@ package main
 
 import (
 	"context"
+	"crypto/sha256"
 	"encoding/json"
 	"fmt"
 	"io"
@@ -21,6 +22,7 @@ import (
 
 	"github.com/tokenized/config"
 	"github.com/tokenized/pkg/bitcoin"
+	"github.com/tokenized/pkg/expanded_tx"
 	"github.com/tokenized/pkg/wire"
 	"github.com/tokenized/spynode/pkg/client"
 )
@@ -105,6 +107,8 @@ type clEnv struct {
 	written   chan *client.Message
 	srvConn   net.Conn
 	handles   []*clHandle
+	pendAtSend map[*client.Message]int
+	msgTimeout time.Duration
 	hash      bitcoin.Hash32
 	prevHash  bitcoin.Hash32
 	hasPrev   bool
@@ -142,6 +146,16 @@ func (e *clEnv) keyHash(k int64) bitcoin.Hash32 {
 	return *e.clTx(k).TxHash()
 }
 
+// kindHash: the hash that identifies request (kind, k).  A save-txs request is identified by the SHA256 of
+// the txids it carries (here: the one transaction k), every other kind by the txid / block hash itself.
+func (e *clEnv) kindHash(kind, k int64) bitcoin.Hash32 {
+	if kind == 3 {
+		txid := e.keyHash(k)
+		return bitcoin.Hash32(sha256.Sum256(txid[:]))
+	}
+	return e.keyHash(k)
+}
+
 func (e *clEnv) keyOfHash(h *bitcoin.Hash32) int64 {
 	if h == nil {
 		return -1
@@ -168,7 +182,8 @@ func newClEnv(c *Case) *clEnv {
 	}
 	e.cfg = client.NewConfig("127.0.0.1:1", e.serverKey.PublicKey(), clientKey, 100, ct)
 	e.cfg.RequestTimeout = config.NewDuration(30 * time.Second)
-	e.cfg.MessageChannelTimeout = config.NewDuration(time.Duration(cfgInt(c, "msg_timeout_ms", 25)) * time.Millisecond)
+	e.msgTimeout = time.Duration(cfgInt(c, "msg_timeout_ms", 25)) * time.Millisecond
+	e.cfg.MessageChannelTimeout = config.NewDuration(e.msgTimeout)
 	rc, err := client.NewRemoteClient(e.cfg)
 	if err != nil {
 		panic(harnessErr("new client: " + err.Error()))
@@ -180,7 +195,16 @@ func newClEnv(c *Case) *clEnv {
 	e.sent = make(chan *client.Message, 1000)
 	e.written = make(chan *client.Message, 1000)
 	go rc.VerifRunRequests(e.ctx, e.interrupt)
-	go rc.VerifSendLoop(e.interrupt, e.sent)
+	e.pendAtSend = map[*client.Message]int{}
+	go rc.VerifSendLoopChecked(e.interrupt, e.sent, func(m *client.Message) {
+		// how many requests are registered at the moment the message is written (the barrier synchronises
+		// with the requests goroutine; callers started by the harness run with a 2 s message time-out)
+		rc.VerifBarrier()
+		n := len(rc.VerifPendingKeys())
+		e.umu.Lock()
+		e.pendAtSend[m] = n
+		e.umu.Unlock()
+	})
 	return e
 }
 
@@ -406,14 +430,14 @@ func (e *clEnv) serverMsg(op Op) *client.Message {
 	case "accept":
 		a := &client.Accept{MessageType: clKinds[op.Int(1)]}
 		if op.Int(2) >= 0 {
-			h := e.keyHash(op.Int(2))
+			h := e.kindHash(op.Int(1), op.Int(2))
 			a.Hash = &h
 		}
 		return &client.Message{Payload: a}
 	case "reject":
 		a := &client.Reject{MessageType: clKinds[op.Int(1)], Code: client.RejectCode(op.Int(3)), Message: "no"}
 		if op.Int(2) >= 0 {
-			h := e.keyHash(op.Int(2))
+			h := e.kindHash(op.Int(1), op.Int(2))
 			a.Hash = &h
 		}
 		return &client.Message{Payload: a}
@@ -450,6 +474,10 @@ func (e *clEnv) startCall(kind, key int64) chan Obs {
 		switch kind {
 		case 1:
 			fin(c.SendTx(ctx, e.clTx(key)), nil)
+		case 2:
+			fin(c.SendExpandedTxAndMarkOutputs(ctx, &expanded_tx.ExpandedTx{Tx: e.clTx(key)}, nil), nil)
+		case 3:
+			fin(c.SaveTxs(ctx, expanded_tx.AncestorTxs{&expanded_tx.AncestorTx{Tx: e.clTx(key)}}), nil)
 		case 4:
 			tx, err := c.GetTx(ctx, e.keyHash(key))
 			if err == nil {
@@ -491,6 +519,13 @@ func sentKey(e *clEnv, m *client.Message) (int64, int64) {
 	switch p := m.Payload.(type) {
 	case *client.SendTx:
 		return 1, e.keyOfHash(p.Tx.TxHash())
+	case *client.SendExpandedTx:
+		return 2, e.keyOfHash(p.Tx.Tx.TxHash())
+	case *client.SaveTxs:
+		if len(p.Txs) == 1 && p.Txs[0] != nil && p.Txs[0].Tx != nil {
+			return 3, e.keyOfHash(p.Txs[0].Tx.TxHash())
+		}
+		return 3, -77
 	case *client.GetTx:
 		return 4, e.keyOfHash(&p.TxID)
 	case *client.GetHeaders:
@@ -562,7 +597,7 @@ func runClient(c *Case) ([]Obs, any) {
 				if op.Int(0) == 5 {
 					height = int(op.Int(1))
 				} else if op.Int(0) != 7 {
-					hash = e.keyHash(op.Int(1))
+					hash = e.kindHash(op.Int(0), op.Int(1))
 				}
 				p, err := e.c.VerifAddPending(clKinds[op.Int(0)], hash, height)
 				if err != nil {
@@ -586,15 +621,31 @@ func runClient(c *Case) ([]Obs, any) {
 				} else {
 					e.c.VerifSetRequestTimeout(30 * time.Second)
 				}
+				e.c.VerifBarrier()
 				before := e.c.VerifPendingKeys()
+				regBefore := len(before)
+				e.c.VerifSetMessageTimeout(2 * time.Second) // read by the call when it starts
 				done := e.startCall(op.Int(0), op.Int(1))
 				var m *client.Message
 				select {
 				case m = <-e.sent:
 				case <-time.After(3 * time.Second):
+					e.c.VerifSetMessageTimeout(e.msgTimeout)
 					return Obs{-5}
 				}
+				e.c.VerifSetMessageTimeout(e.msgTimeout)
+				// when the message was on the wire (the caller not yet told) the request must already have been
+				// registered, otherwise a reply routed at that moment finds nobody (then: -6)
+				e.umu.Lock()
+				atSend := e.pendAtSend[m]
+				delete(e.pendAtSend, m)
+				e.umu.Unlock()
 				e.c.VerifBarrier()
+				if atSend <= regBefore {
+					k, key := sentKey(e, m)
+					e.handles = append(e.handles, &clHandle{isCall: true, done: done, short: short})
+					return Obs{-6, int64(len(e.handles) - 1), k, key}
+				}
 				after := e.c.VerifPendingKeys()
 				var ptr interface{}
 				for _, k := range after {
@@ -658,6 +709,8 @@ func (e *clEnv) getOutputs(op Op) Obs {
 		ops[i] = wire.OutPoint{Hash: e.keyHash(p[0]), Index: uint32(p[1])}
 	}
 	e.c.VerifSetRequestTimeout(30 * time.Second)
+	e.c.VerifSetMessageTimeout(2 * time.Second)
+	defer e.c.VerifSetMessageTimeout(e.msgTimeout)
 	type res struct {
 		utxos []bitcoin.UTXO
 		err   error
